@@ -28,6 +28,10 @@ pub struct ColSpec {
     /// the universe keys themselves collide (uniform keys, zero salt): all share one 16-bit index
     /// chunk, groups of them agree on every bit the index stores and differ only in the key tail
     pub collide: bool,
+    /// with `collide`: the keys also share the bits 16..18 of the hash, so that the index pages of the
+    /// NEW generation overflow while a reindex batch fills them (growth triggered from a batch, two
+    /// generations pending at once)
+    pub deep: bool,
 }
 
 impl ColSpec {
@@ -44,6 +48,7 @@ impl ColSpec {
             noempty: j["noempty"].as_bool().unwrap_or(false),
             grow: j["grow"].as_bool().unwrap_or(false),
             collide: j["collide"].as_bool().unwrap_or(false),
+            deep: j["deep"].as_bool().unwrap_or(false),
             kind,
         }
     }
@@ -164,9 +169,12 @@ impl Universe {
                     // identity hash: bytes 0..8 are what the index sees (chunk = first 16+ bits, then the
                     // partial key); 16 distinct 64-bit prefixes, so with more keys several share all of it
                     let mut k = vec![0u8; 32];
-                    k[0] = 0xc0;
+                    // deep: a low page, so that the page of the newer generation lies below the reindex progress
+                    // already made in the older one when the nested growth starts
+                    k[0] = if spec.deep { 0x00 } else { 0xc0 };
                     k[1] = 0x11 + c as u8;
-                    k[2] = ((i % 4) as u8) << 6; // separates the keys when the index grows to 17 / 18 bits
+                    // separates the keys when the index grows to 17 / 18 bits (deep: to 19 / 20 bits)
+                    k[2] = ((i % 4) as u8) << (if spec.deep { 4 } else { 6 });
                     k[3] = ((i / 4) % 4) as u8;
                     let tail = fill(&mut rng, 24, false);
                     k[8..].copy_from_slice(&tail);
